@@ -40,6 +40,12 @@ spec fn src_missing_kind(e: SystemError) -> bool { e is NotFound || e is RenameF
 
 trait System : Sized
 {
+    type File;
+
+    // read-only: which file is opened, nothing changes
+    fn open(&self, path: &str, Tracked(w): Tracked<&mut World>) -> (r: Result<Self::File, SystemError>)
+        ensures *final(w) == *old(w), r is Ok ==> old(w).files.contains_key(path@);
+
     fn is_dir(&self, path: &str, Tracked(w): Tracked<&mut World>) -> (r: bool)
         ensures *final(w) == *old(w), r == old(w).dirs.contains(path@);
 
